@@ -132,6 +132,10 @@ const ghostPrelude = `
 // Ghost predicates on connections (no run-time observer; see govc/ghost.go).
 func verif_closed(c any) bool        { return false }
 func verif_chclosed[T any](c chan T) bool { return false }
+// hold state of a mutex for the executing thread (contract option locks)
+func verif_wheld[T any](m *T) bool { return false }
+func verif_rheld[T any](m *T) bool { return false }
+func verif_held[T any](m *T) bool  { return false }
 func verif_notified(c any) bool      { return false }
 func verif_notified_open(c any) bool { return false }
 func verif_notif_code(c any) uint8   { return 0 }
